@@ -30,11 +30,12 @@ ASSUMPTIONS = [
     "class escapes have interegular's documented ASCII meaning; the oracle pattern scopes them with (?a:...)",
     "the pool excludes characters on which Python's simple case folding and interegular's {lower, upper} differ (e.g. U+1E9E, Kelvin sign, long s): that difference is third-party and documented",
     "only strings over the character set are judged",
+    "negated escapes (\\D \\W \\S) occur inside a character class only in the match-nothing classes [^\\d\\D], [^\\w\\W], [^\\s\\S]: interegular 0.3.3 itself computes the wrong set for [\\S\\W] and for (?i:[c\\W]) (its own FSM disagrees with the regex), which is third-party behaviour outside the statement",
 ]
 
 
 def examples(tier):
-    return 640 if tier == "quick" else 12000
+    return 960 if tier == "quick" else 16000
 
 
 @st.composite
@@ -46,6 +47,10 @@ def atom(draw, chars):
         return ["dot"]
     if k == 6:
         return ["esc", draw(st.sampled_from(["d", "w", "s", "D", "W", "S"]))]
+    if k == 7 and draw(st.integers(0, 1)) == 0:
+        # a class that matches nothing (interegular keeps an explicit dead state for it)
+        e = draw(st.sampled_from(["d", "w", "s"]))
+        return ["cls", [["esc", e], ["esc", e.upper()]], True]
     items = []
     for _ in range(draw(st.integers(1, 3))):
         j = draw(st.integers(0, 5))
@@ -145,6 +150,23 @@ def check(case, ctx):
     if isinstance(m, LibRaised):
         return
     cands = candidate_strings(case)
+    # Third-party guard: the library delegates the meaning of the expression to interegular.  Where
+    # interegular's own automaton disagrees with Python's re on a candidate (known: [\\S\\W],
+    # (?i:[c\\W]), lookaheads) neither can serve as the oracle; such a case is counted and its
+    # acceptance is not judged (its normalisation still is).
+    third_party = False
+    try:
+        import interegular
+
+        fsm = interegular.parse_pattern(pat).to_fsm()
+        if any(not fsm.islive(e) for e in fsm.states) and any(fsm.islive(e) for e in fsm.states):
+            ctx.cls("fsm:dead_state_beside_live")
+        third_party = any(fsm.accepts(s) != (orc.fullmatch(s) is not None) for s in cands)
+    except Exception:  # noqa: BLE001
+        pass
+    if third_party:
+        ctx.cls("discard:interegular_disagrees_with_re")
+        cands = []
     n_match = 0
     for s in cands:
         want = orc.fullmatch(s) is not None
